@@ -446,6 +446,82 @@ func runC09(c *Ctx) {
 
 	c.rule("C09.O3", "a rescan that (re)subscribes misses no reorganisation: "+backlogDoc, func() { c.backlogThenRegister() })
 
+	c.rule("C09.V3", "no payment to a watched address is skipped: paysWatchedAddr compares the script of every output of the transaction with the script (txscript.PayToAddrScript) of every address that is on ro.watchAddrs at the time of the call (the list is read in the call itself, so addresses added by an update are seen): from each output the loop over the addresses is always entered, and each (output, address) pair reaches the bytes.Equal comparison unless deriving the script failed", func() {
+		fn := c.fn("(*neutrino.rescanOptions).paysWatchedAddr")
+		p2a := c.P.FuncObj("github.com/btcsuite/btcd/txscript/v2", "PayToAddrScript")
+		beq := c.P.FuncObj("bytes", "Equal")
+		if p2a == nil || beq == nil {
+			panic(anchorErr{"txscript.PayToAddrScript / bytes.Equal"})
+		}
+		txOutF := c.field(pWire, "MsgTx", "TxOut")
+		pkF := c.field(pWire, "TxOut", "PkScript")
+		wa := c.field("neutrino", "rescanOptions", "watchAddrs")
+		fromOut := func(v ssa.Value) bool {
+			return ir.DerivesFrom(v, func(x ssa.Value) bool {
+				fa, ok := x.(*ssa.FieldAddr)
+				return ok && ir.FieldOfAddr(fa) == pkF
+			}) && ir.DerivesFrom(v, func(x ssa.Value) bool { return loadsField(txOutF)(x) })
+		}
+		fromAddr := func(v ssa.Value) bool {
+			return ir.DerivesFrom(v, func(x ssa.Value) bool {
+				call, ok := x.(*ssa.Call)
+				if !ok || !callTo(p2a)(call) {
+					return false
+				}
+				return ir.DerivesFrom(call.Call.Args[0], func(y ssa.Value) bool { return loadsField(wa)(y) })
+			})
+		}
+		var cmps []ssa.Instruction
+		for _, in := range find(fn, callTo(beq)) {
+			a := ir.CallOf(in).Args
+			if len(a) == 2 && (fromOut(a[0]) && fromAddr(a[1]) || fromOut(a[1]) && fromAddr(a[0])) {
+				cmps = append(cmps, in)
+			}
+		}
+		construct := c.nm(fn) + " | every (output, watched address) pair is compared by script"
+		if len(cmps) != 1 {
+			c.fail(construct, c.P.Pos(fn.Pos()), fmt.Sprintf("%d comparison(s) bytes.Equal(out.PkScript, PayToAddrScript(<element of ro.watchAddrs read in this call>)), 1 tabled: outputs are not compared with the addresses currently on the watch list (a list derived earlier misses addresses added by an update)", len(cmps)))
+			return
+		}
+		cmp := cmps[0]
+		var headers []*ssa.BasicBlock
+		for _, b := range fn.Blocks {
+			if len(ir.BackEdgesTo(b)) > 0 && ir.LoopBlocks(b)[cmp.Block()] {
+				headers = append(headers, b)
+			}
+		}
+		sort.Slice(headers, func(i, j int) bool { return len(ir.LoopBlocks(headers[i])) < len(ir.LoopBlocks(headers[j])) })
+		if len(headers) != 2 {
+			c.fail(construct, c.at(cmp), fmt.Sprintf("the comparison is nested in %d loop(s), 2 tabled (outputs x watched addresses)", len(headers)))
+			return
+		}
+		inner, outer := headers[0], headers[1]
+		bodyEdges := func(h *ssa.BasicBlock, what string) []start {
+			in := ir.LoopBlocks(h)
+			var out []start
+			for i, sc := range h.Succs {
+				if in[sc] {
+					out = append(out, atEdge(c, ir.Edge{From: h, Succ: i}, what))
+				}
+			}
+			return out
+		}
+		// both loops walk their whole list
+		c.fullRange(fn, outer, "the loop over the transaction's outputs", func(v ssa.Value) bool { return loadsField(txOutF)(v) }, 0, func(r *ssa.Return) bool { return false })
+		c.fullRange(fn, inner, "the loop over ro.watchAddrs", func(v ssa.Value) bool { return loadsField(wa)(v) }, 0, func(r *ssa.Return) bool { return false }, func(e ir.Edge) bool { return true })
+		innerFirst := inner.Instrs[0]
+		c.mustFollowIter(fn, "each output of the transaction", bodyEdges(outer, "next output"), func(in ssa.Instruction) bool { return in == innerFirst }, "the loop over ro.watchAddrs", nil, 1)
+		var p2aCalls []ssa.Instruction
+		for _, in := range find(fn, callTo(p2a)) {
+			p2aCalls = append(p2aCalls, in)
+		}
+		errCut := ir.Cut{}
+		for _, st := range errNil("", p2aCalls, 1).sites {
+			errCut[st.br.Other()] = true
+		}
+		c.mustFollowIter(fn, "each (output, watched address) pair", bodyEdges(inner, "next watched address"), func(in ssa.Instruction) bool { return in == cmp }, "bytes.Equal(pkScript, addrScript)", errCut, 1)
+	})
+
 	c.rule("C09.V1", "paysWatchedAddr: an output paying a watched address makes the created outpoint watched from then on (appended to both watchInputs and watchList)", func() {
 		fn := c.fn("(*neutrino.rescanOptions).paysWatchedAddr")
 		wi := c.field("neutrino", "rescanOptions", "watchInputs")
